@@ -13,5 +13,6 @@ def run(ctx):
     fam = ctx.tlc_family("FamC08", constants={"Tier": '"%s"' % ctx.tier}, timeout=3000)
     ctx.exhaustive["FamC08"] = True
     failures = progflow.judge(ctx, fam, "fam")
+    failures += progflow.judge(ctx, progflow.scale_cases(ctx, "C08"), "scale")      # values of 100 to 5000 (thorough 9000) characters, around the 4096 mark
     progflow.report(ctx, failures)
     return ctx.finish(rule=RULE, assumptions=ASSUME)
